@@ -367,7 +367,8 @@ fn hostile_roundtrip(w: &mut W, prop: &str, want_v9: bool) {
         let h = hostile_history(&mut rng, &w.pools, &w.corpus);
         let mut sut = Sut::new(0);
         sut.parsers = make_parsers(&h);
-        for (p, b) in &h.ops {
+        for (i, (p, b)) in h.ops.iter().enumerate() {
+            h.reconfigure(i, &mut sut);
             // ids whose governing IPFIX template has a variable-length field, before the call
             let varlen_before: std::collections::BTreeSet<u16> = {
                 let c = &sut.parsers[*p].ipfix_parser;
